@@ -87,13 +87,17 @@ func genScan(w *out.W, tier string) {
 	if thorough {
 		nt = 5
 	}
+	gm := []optSet{byName["generic"], byName["mysql"]}
+	gp := []optSet{byName["generic"], byName["postgres"]}
 	for _, fam := range []struct {
 		toks []string
+		n    int
 		sets []optSet
 	}{
-		{tokBegin, all}, {tokDelim, drv}, {tokHdr, drv}, {tokCmt, drv}, {tokMisc, all}, {tokGo, extra},
+		{tokBegin, nt, drv}, {tokBegin, nt - 1, all}, {tokDelim, nt, gm}, {tokDelim, nt - 1, drv}, {tokHdr, nt, gp}, {tokHdr, nt - 1, drv},
+		{tokCmt, nt, gm}, {tokCmt, nt - 1, drv}, {tokMisc, nt - 1, all}, {tokGo, nt - 1, extra},
 	} {
-		words(fam.toks, nt, func(s string) {
+		words(fam.toks, fam.n, func(s string) {
 			for _, o := range fam.sets {
 				rn.run("t", o, s)
 			}
@@ -123,6 +127,7 @@ func genScan(w *out.W, tier string) {
 		}
 		rn.run("m", o, in)
 	}
+	rn.flush()
 }
 
 func loadCorpus() []string {
